@@ -1,6 +1,11 @@
 """C31 -- geometric predicates and point orderings agree with exact oracles.
 
-Tier B (bounded run-time contract sweep; exhaustive small scope where stated).
+Tier P  : is_ccw_polyline -- the real function run on proxies: number of test points, every coordinate, tol >= 0 symbolic; at a
+          Skolem entry k: True left of the band, False right of it, `default` inside; single-point form likewise.
+Tier Ps : is_ccw_polygon (3-8 vertices, all real coordinates) == (shoelace area > 0); point_inside_half_space_intersection
+          ((planes, points) up to (3, 2), all real values) == conjunction of the half-space inequalities.
+          Refuted obligations are replayed on the real function with a counter-model kept away from degenerate values.
+Tier B  : bounded run-time contract sweep (exhaustive small scope where stated) for all predicates and orderings:
 
 Predicates (ensures: the returned boolean equals the exact answer; requires: the query is not ON the boundary
 / in the tolerance band, decided exactly in rational arithmetic -- such inputs are skipped):
@@ -80,16 +85,22 @@ import itertools
 from fractions import Fraction
 
 META = {
-    "level": "exploration",
-    "engine": "sweep",
-    "technique": "run-time contract sweep (bounded stand-in for deduction): integer polygons/polyhedra/point sets through the real "
-                 "predicates and sorting helpers, answers compared with exact rational oracles / validity checkers",
-    "text": "Tier B only. Predicates: exhaustive integer (and half-offset) query points of a box against a fixed catalogue (7 polygons in "
+    "level": "other",
+    "engine": "pse",
+    "technique": "contract-based deductive verification of is_ccw_polyline (all lengths, all reals), is_ccw_polygon and "
+                 "point_inside_half_space_intersection (all reals, bounded shapes) by proxy symbolic execution + z3; run-time contract sweep "
+                 "(bounded stand-in) for the other predicates and the sorting helpers against exact rational oracles / validity checkers",
+    "text": "Tier P: is_ccw_polyline(p1, p2, p3, tol, default) for every number of test points, all real coordinates, every tol >= 0 and both "
+            "defaults: entry k is True where cross > tol, False where cross < -tol, `default` in the band; single-point form too. Tier Ps (all "
+            "real values, shapes bounded): is_ccw_polygon for 3-8 vertices equals (shoelace signed area > 0); "
+            "point_inside_half_space_intersection for (planes, points) in {(1,1),(2,2),(3,1),(4,1),(3,2)} equals the conjunction of the "
+            "half-space inequalities. Tier B: exhaustive integer (and half-offset) query points of a box against a fixed catalogue (7 polygons in "
             "all orientations, cube/tetrahedron/L-prism, 4 half-space systems), exhaustive integer triangles/triples/4-subsets for the ccw, "
             "planarity and collinearity tests; boundary/tolerance-band queries are excluded exactly. Orderings: exhaustive edge orders/flips "
             "for chains and cycles up to length 5, all orders of 4-5 points for the line/plane sorts, all vertex orders of a tetrahedron. "
-            "Nothing is claimed beyond the catalogue and boxes; no deduction (Ps for is_ccw_polyline not attempted).",
-    "note": "oracles: crossing number, signed area, determinants, definition of the solids; all exact",
+            "Mixed tiers -> level 'other'.",
+    "note": "oracles: crossing number, signed area, determinants, definition of the solids; all exact. Deductive part: floats as reals; numpy "
+            "elementwise arithmetic, comparison, masked assignment, np.ones/zeros/abs/append/repeat/sum models",
 }
 
 RTOL = 1e-9
@@ -894,11 +905,255 @@ SWEEPS = [sweep_point_in_polygon, sweep_point_in_polyhedron, sweep_half_spaces, 
           sweep_sort_point_pairs, sweep_sort_point_plane, sweep_sort_points_on_line, sweep_sort_triangle_edges]
 
 
+# ============================================================================= tier P / Ps: deductive part
+
+
+def _bt(x):
+    import z3
+    from engine.sym import SymBool
+
+    return x.t if isinstance(x, SymBool) else z3.BoolVal(bool(x))
+
+
+def case_polyline_vec(gpc, default):
+    """is_ccw_polyline with a (2, n) third argument: n, all coordinates and tol symbolic"""
+    import numpy as np
+    import z3
+    from engine.arrays import SymArray, SymRows
+    from engine.sym import SymBool, iterm
+
+    def run(ctx):
+        n = ctx.int("n")
+        ctx.assume(n >= 1)
+        p1 = np.array([ctx.real("p1x"), ctx.real("p1y")], dtype=object)
+        p2 = np.array([ctx.real("p2x"), ctx.real("p2y")], dtype=object)
+        X, Y = SymArray.fresh("p3x", n, "real"), SymArray.fresh("p3y", n, "real")
+        tol = ctx.real("tol")
+        ctx.assume(tol >= 0)
+        r = gpc.is_ccw_polyline(p1, p2, SymRows([X, Y]), tol=tol, default=default)
+        k = ctx.int("k")
+        ctx.assume((k >= 0) & (k < n))
+        cr = (p2[0].t - p1[0].t) * (Y._elem(k.t) - p1[1].t) - (p2[1].t - p1[1].t) * (X._elem(k.t) - p1[0].t)
+        ctx.inputs = {"fn": "is_ccw_polyline", "form": "vec", "default": default, "n": n.t, "k": k.t, "tol": tol.t,
+                      "p1": [p1[0].t, p1[1].t], "p2": [p2[0].t, p2[1].t], "X": X._elem, "Y": Y._elem}
+        ctx.margins = [z3.Or(cr >= tol.t + 1, cr <= -tol.t - 1, z3.And(tol.t >= 2, cr <= tol.t - 1, cr >= 1 - tol.t))]
+        rk = r._elem(k.t)
+        ctx.prove("one answer per test point", SymBool(iterm(r.n) == n.t))
+        ctx.prove("a point to the left of p1->p2 by more than tol gives True", SymBool(z3.Implies(cr > tol.t, rk)))
+        ctx.prove("a point to the right of p1->p2 by more than tol gives False", SymBool(z3.Implies(cr < -tol.t, z3.Not(rk))))
+        ctx.prove("a point within the tolerance band gives `default`", SymBool(z3.Implies(z3.And(cr <= tol.t, cr >= -tol.t), rk == z3.BoolVal(default))))
+        ctx.prove("CANARY: every point is reported left", SymBool(rk), expect_refuted=True)
+        return "ok"
+
+    return run
+
+
+def case_polyline_single(gpc):
+    import numpy as np
+    import z3
+    from engine.sym import SymBool
+
+    def run(ctx):
+        p = [np.array([ctx.real(f"p{q}x"), ctx.real(f"p{q}y")], dtype=object) for q in (1, 2, 3)]
+        r = gpc.is_ccw_polyline(p[0], p[1], p[2])
+        cr = (p[1][0].t - p[0][0].t) * (p[2][1].t - p[0][1].t) - (p[1][1].t - p[0][1].t) * (p[2][0].t - p[0][0].t)
+        ctx.inputs = {"fn": "is_ccw_polyline", "form": "single", "p1": [p[0][0].t, p[0][1].t], "p2": [p[1][0].t, p[1][1].t],
+                      "p3": [p[2][0].t, p[2][1].t]}
+        ctx.margins = [z3.Or(cr >= 1, cr <= -1)]
+        ctx.prove("single point: one answer", SymBool(z3.BoolVal(np.size(r) == 1)))
+        rk = _bt(np.ravel(r)[0])
+        ctx.prove("single point, tol=0: True iff cross > 0 (off the line)", SymBool(z3.Implies(cr != 0, rk == (cr > 0))))
+        ctx.prove("single point, tol=0: on the line gives the default False", SymBool(z3.Implies(cr == 0, z3.Not(rk))))
+        return "ok"
+
+    return run
+
+
+def case_polygon(gpc, n):
+    import numpy as np
+    import z3
+    from engine.sym import SymBool
+
+    def run(ctx):
+        xs = [ctx.real(f"x{i}") for i in range(n)]
+        ys = [ctx.real(f"y{i}") for i in range(n)]
+        r = gpc.is_ccw_polygon(np.array([xs, ys], dtype=object))
+        a2 = sum(xs[i].t * ys[(i + 1) % n].t - xs[(i + 1) % n].t * ys[i].t for i in range(n))
+        ctx.inputs = {"fn": "is_ccw_polygon", "x": [x.t for x in xs], "y": [y.t for y in ys]}
+        ctx.margins = [z3.Or(a2 >= 1, a2 <= -1)]
+        ctx.prove("ccw iff the shoelace signed area is positive", SymBool(_bt(r) == (a2 > 0)))
+        ctx.prove("CANARY: every polygon is ccw", SymBool(_bt(r)), expect_refuted=True)
+        return "ok"
+
+    return run
+
+
+def case_half_space(hs, m, q):
+    import numpy as np
+    import z3
+    from engine.sym import SymBool
+
+    def run(ctx):
+        N = np.array([[ctx.real(f"n{d}_{i}") for i in range(m)] for d in range(3)], dtype=object)
+        X0 = np.array([[ctx.real(f"x{d}_{i}") for i in range(m)] for d in range(3)], dtype=object)
+        P = np.array([[ctx.real(f"p{d}_{j}") for j in range(q)] for d in range(3)], dtype=object)
+        r = hs.point_inside_half_space_intersection(N, X0, P)
+        T = lambda A: [[A[d, i].t for i in range(A.shape[1])] for d in range(3)]
+        ctx.inputs = {"fn": "point_inside_half_space_intersection", "n": T(N), "x0": T(X0), "pts": T(P)}
+        S = [[sum((P[d, j].t - X0[d, i].t) * N[d, i].t for d in range(3)) for i in range(m)] for j in range(q)]
+        ctx.margins = [z3.Or(v >= 1, v <= -1) for row in S for v in row]
+        ctx.prove("one answer per point", SymBool(z3.BoolVal(np.shape(r) == (q,))))
+        for j in range(q):
+            inside = z3.And(*[sum((P[d, j].t - X0[d, i].t) * N[d, i].t for d in range(3)) <= 0 for i in range(m)])
+            ctx.prove(f"point {j}: inside iff (p - x0_i).n_i <= 0 for every half-space i", SymBool(_bt(r[j]) == inside))
+        if m >= 2:
+            ctx.prove("CANARY: being in the first half-space suffices",
+                      SymBool(_bt(r[0]) == (sum((P[d, 0].t - X0[d, 0].t) * N[d, 0].t for d in range(3)) <= 0)), expect_refuted=True)
+        return "ok"
+
+    return run
+
+
+def _concretise(ctx, m):
+    """python inputs (Fractions) of the real function from a counter-model of a refuted obligation"""
+    from engine import sym
+
+    inp = getattr(ctx, "inputs", None)
+    if m is None or inp is None:
+        return None
+    val = lambda t: sym.model_value(m, t)
+    out = {"fn": inp["fn"]}
+    try:
+        if inp["fn"] == "is_ccw_polyline":
+            out["form"] = inp["form"]
+            out["p1"], out["p2"] = [val(t) for t in inp["p1"]], [val(t) for t in inp["p2"]]
+            if inp["form"] == "single":
+                out["p3"] = [[val(inp["p3"][0])], [val(inp["p3"][1])]]
+                out["tol"], out["default"], out["k"] = 0, False, 0
+            else:
+                n, k = int(val(inp["n"])), int(val(inp["k"]))
+                if n > 12:  # keep the entry the model talks about, drop the tail
+                    n = k + 1
+                import z3
+
+                out["p3"] = [[val(inp["X"](z3.IntVal(i))) for i in range(n)], [val(inp["Y"](z3.IntVal(i))) for i in range(n)]]
+                out["tol"], out["default"], out["k"] = val(inp["tol"]), inp["default"], k
+        elif inp["fn"] == "is_ccw_polygon":
+            out["x"], out["y"] = [val(t) for t in inp["x"]], [val(t) for t in inp["y"]]
+        else:
+            for key in ("n", "x0", "pts"):
+                out[key] = [[val(t) for t in row] for row in inp[key]]
+    except Exception:  # noqa  (e.g. a value that is not a number in the model)
+        return None
+    flat = lambda v: [x for y in v for x in flat(y)] if isinstance(v, list) else [v]
+    if any(not isinstance(x, (int, Fraction, bool)) for key, v in out.items() if key not in ("fn", "form") for x in flat(v)):
+        return None
+    return out
+
+
+def _native(pp, inp):
+    """Run the real function on the concretised counter-model (as doubles) and compare with the exact answer for those doubles.
+    Returns a description of the disagreement, or None."""
+    import numpy as np
+
+    F = lambda v: Fraction(float(v))
+    A = lambda rows: np.array([[float(x) for x in row] for row in rows], dtype=float)
+    if inp["fn"] == "is_ccw_polyline":
+        p1, p2 = [float(x) for x in inp["p1"]], [float(x) for x in inp["p2"]]
+        tol, default = float(inp["tol"]), bool(inp["default"])
+        p3 = A(inp["p3"])
+        arg3 = p3[:, 0] if inp["form"] == "single" else p3
+        got = pp.geometry_property_checks.is_ccw_polyline(np.array(p1), np.array(p2), arg3, **({} if inp["form"] == "single" else {"tol": tol, "default": default}))
+        got = np.ravel(got)
+        if got.size != p3.shape[1]:
+            return f"{got.size} answers for {p3.shape[1]} points"
+        for k in range(p3.shape[1]):
+            cr = (F(p2[0]) - F(p1[0])) * (F(p3[1, k]) - F(p1[1])) - (F(p2[1]) - F(p1[1])) * (F(p3[0, k]) - F(p1[0]))
+            exact = True if cr > F(tol) else (False if cr < -F(tol) else default)
+            # the exact cross product of doubles next to the band edge may round across it: only clear cases count
+            if abs(abs(cr) - F(tol)) <= Fraction(1, 10**9) * max(1, abs(cr)):
+                continue
+            if bool(got[k]) != exact:
+                return f"point {k}: cross={float(cr)}, tol={tol}, default={default}: returned {bool(got[k])}, exact {exact}"
+        return None
+    if inp["fn"] == "is_ccw_polygon":
+        x, y = [float(v) for v in inp["x"]], [float(v) for v in inp["y"]]
+        n = len(x)
+        a2 = sum(F(x[i]) * F(y[(i + 1) % n]) - F(x[(i + 1) % n]) * F(y[i]) for i in range(n))
+        if abs(a2) <= Fraction(1, 10**9) * max(1, max(abs(F(v)) for v in x + y)) ** 2:
+            return None
+        got = bool(pp.geometry_property_checks.is_ccw_polygon(np.array([x, y])))
+        return None if got == (a2 > 0) else f"2*area={float(a2)}, returned {got}"
+    n, x0, pts = A(inp["n"]), A(inp["x0"]), A(inp["pts"])
+    got = np.ravel(pp.half_space.point_inside_half_space_intersection(n, x0, pts))
+    if got.size != pts.shape[1]:
+        return f"{got.size} answers for {pts.shape[1]} points"
+    for j in range(pts.shape[1]):
+        s = [sum((F(pts[d, j]) - F(x0[d, i])) * F(n[d, i]) for d in range(3)) for i in range(n.shape[1])]
+        if any(abs(v) <= Fraction(1, 10**9) for v in s):
+            continue
+        exact = all(v < 0 for v in s)
+        if bool(got[j]) != exact:
+            return f"point {j}: (p-x0_i).n_i = {[float(v) for v in s]}, returned {bool(got[j])}"
+    return None
+
+
+def prove(rep, pp):
+    from engine import shims, sym
+    from engine.harness import run_case
+    from porepy.geometry import geometry_property_checks as gpc
+    from porepy.geometry import half_space as hs
+
+    refuted = []
+    with shims.shadow_builtins([gpc, hs]), shims.numpy_shims():
+        for default in (False, True):
+            rf, _ = run_case(rep, f"is_ccw_polyline[(2, n) points, default={default}]", case_polyline_vec(gpc, default))
+            refuted += rf
+        rf, _ = run_case(rep, "is_ccw_polyline[single point]", case_polyline_single(gpc))
+        refuted += rf
+        for n in (3, 4, 5, 6, 8):
+            rf, _ = run_case(rep, f"is_ccw_polygon[{n} vertices]", case_polygon(gpc, n), tier="Ps")
+            refuted += rf
+        for m, q in ((1, 1), (2, 2), (3, 1), (4, 1)) + (((3, 2),) if rep.tier != "quick" else ()):
+            rf, _ = run_case(rep, f"point_inside_half_space_intersection[{m} planes, {q} points]", case_half_space(hs, m, q), tier="Ps")
+            refuted += rf
+    rep.trust(*sorted(shims.USED_MODELS))
+    for name, ctx, r in refuted:
+        # prefer a counter-model away from the degenerate values (zero cross products ...) that doubles cannot reproduce
+        inp = _concretise(ctx, sym.robust_model(r, getattr(ctx, "margins", [])) or r["model"])
+        bad = None
+        if inp is not None:
+            try:
+                bad = _native(pp, inp)
+            except Exception as e:  # noqa
+                bad = f"raises {type(e).__name__}: {e}"
+        detail = (f"native run of the counter-model: {bad} | " if bad else "") + f"z3 counter-model: {r['model']}"
+        rep.violation(name, "deductive", inputs=({"deductive": _ser(inp)} if bad else None), detail=detail[:1500], confirmed=bool(bad),
+                      solver_output=str(r["model"]))
+
+
+def _ser(v):
+    if isinstance(v, dict):
+        return {k: _ser(x) for k, x in v.items()}
+    if isinstance(v, list):
+        return [_ser(x) for x in v]
+    return str(v) if isinstance(v, Fraction) else v
+
+
+def _deser(v, key=None):
+    if isinstance(v, dict):
+        return {k: _deser(x, k) for k, x in v.items()}
+    if isinstance(v, list):
+        return [_deser(x, key) for x in v]
+    return Fraction(v) if isinstance(v, str) and key not in ("fn", "form") else v
+
+
 def run(rep):
     import warnings
 
     import porepy as pp
 
+    prove(rep, pp)
     gp = "pp.geometry_property_checks."
     rep.under_contract(gp + "point_in_polygon", gp + "point_in_polyhedron", "pp.point_in_polyhedron.PointInPolyhedron.winding_number",
                        "pp.half_space.point_inside_half_space_intersection", "pp.half_space.half_space_interior_point",
@@ -929,6 +1184,10 @@ def replay(data):
     from engine.report import Report
 
     ob = data.get("obligation", "")
+    if isinstance(data.get("inputs"), dict) and "deductive" in data["inputs"]:
+        bad = _native(pp, _deser(data["inputs"]["deductive"]))
+        print("replay of the solver's counter-model on the real function:", bad)
+        return bad is not None
     rep = Report("C31", "quick", 0)
     owner = {"point_in_polygon": sweep_point_in_polygon, "point_in_polyhedron": sweep_point_in_polyhedron,
              "PointInPolyhedron.winding_number": sweep_point_in_polyhedron, "point_inside_half_space_intersection": sweep_half_spaces,
